@@ -85,6 +85,17 @@ var (
 		Reason:  wamp.ErrSystemShutdown,
 		Details: wamp.Dict{},
 	}
+
+	// abortedGoodbye ends the session of a client that was sent ABORT because
+	// of a protocol violation. The session's message handler exits without
+	// sending anything more, leaves the realm and closes the peer. The peer
+	// must only be closed by its message handler, after the session is removed
+	// from broker and dealer; closing it anywhere else closes it twice and
+	// lets broker and dealer send to a closed peer.
+	abortedGoodbye = &wamp.Goodbye{ //nolint:gochecknoglobals
+		Reason:  wamp.ErrProtocolViolation,
+		Details: wamp.Dict{},
+	}
 )
 
 // newRealm creates a new realm with the given RealmConfig, broker and dealer.
@@ -447,6 +458,13 @@ func (r *realm) handleInboundMessages(sess *wamp.Session) (bool, bool, error) {
 			}
 		case <-recvDone:
 			goodbye := sess.Goodbye()
+			if goodbye == abortedGoodbye {
+				// ABORT was already sent to the client.
+				if r.debug {
+					r.log.Printf("Abort session %s: protocol violation", sess)
+				}
+				return false, false, nil
+			}
 			switch goodbye {
 			case shutdownGoodbye, wamp.NoGoodbye:
 				if r.debug {
